@@ -611,9 +611,10 @@ impl Vm {
                 first = false;
                 out.push_str(op.to_string());
                 // `num_operands` (used by the debug disassembler only) under-reports
-                // CallCallable and FFICallFunction: the compiler emits and the VM reads
-                // two resp. three operands
+                // Factorial, CallCallable and FFICallFunction: the compiler emits and the
+                // VM reads one, two resp. three operands
                 let num_operands = match op {
+                    Op::Factorial => 1,
                     Op::CallCallable => 2,
                     Op::FFICallFunction => 3,
                     _ => op.num_operands(),
